@@ -667,6 +667,16 @@ class PointsTo:
                             self._assign(tt, self.var.get(("ret", t[1].qual, i), set()), fn, mod, value, node)
         if not handled:
             objs = self.pts(value, fn, mod)
+            # tuples built elsewhere with exactly this arity (a tuple kept in an attribute, handed out by a method ...):
+            # position by position
+            tups = [o for o in objs if o.kind == "list" and isinstance(o.node, ast.Tuple) and len(o.node.elts) == len(target.elts)]
+            if tups and len(tups) == len([o for o in objs if o.kind in ("list", "dict", "copy")]):
+                for o in tups:
+                    for i, tt in enumerate(target.elts):
+                        if isinstance(tt, ast.Starred):
+                            continue
+                        self._assign(tt, self.pts(o.node.elts[i], o.fn, o.mod), fn, mod, value, node)
+                return
             elems = set()
             for o in objs:
                 elems |= self.getfield(o, ELEM if o.kind == "list" else None)
